@@ -1,9 +1,10 @@
 /-
   Driver of property C02 (every written image is a valid image of the same size): the edit-operation
-  model, the model of create-fv, and the independent reader.  The protocol is documented in
-  FianoModel/Uefi/EditDrv.lean and FianoModel/Uefi/CreateFvDrv.lean.
+  model, the model of create-fv, nvram-compact on C10's model of the NVAR store, and the independent
+  reader.  The protocol is documented in FianoModel/Uefi/EditDrv.lean, FianoModel/Uefi/CreateFvDrv.lean
+  and FianoModel/Uefi/EditValidOpsDrv.lean.
 -/
 import Driver.Common
-import FianoModel.Uefi.CreateFvDrv
+import FianoModel.Uefi.EditValidOpsDrv
 
-def main : IO Unit := Driver.loop Fiano.Uefi.CreateFvDrv.handle
+def main : IO Unit := Driver.loop Fiano.Uefi.EditValidOpsDrv.handle
